@@ -262,24 +262,38 @@ pub fn run(ctx: &Ctx) -> i32 {
         }
     }
     cli_gate(ctx, &mut ev);
-    // auxiliary, non-runtime gate for the purely syntactic sentence "the library contains no unsafe code"
+    // auxiliary, non-runtime gate for the purely syntactic sentence "the library contains no unsafe code": the library must compile
+    // with -F unsafe_code - with the default target features AND with every feature of this CPU enabled (code behind
+    // cfg(target_feature = ...) is part of the library as well) AND with debug assertions off/on as cargo's profiles have them
     {
-        let tgt = ctx.root.join("target").join("aux");
-        let out = Command::new("cargo").current_dir("/repo").env("CARGO_TARGET_DIR", &tgt).env_remove("RUSTFLAGS").args(&["rustc", "--offline", "-p", "fst", "--lib", "--features", "levenshtein", "--", "-F", "unsafe_code"]).output();
-        match out {
-            Ok(o) if o.status.success() => {
-                ev.count("aux:library-compiles-with-forbid-unsafe_code");
-            }
-            Ok(o) => {
-                let err = String::from_utf8_lossy(&o.stderr).to_string();
-                if err.contains("unsafe") {
-                    let first = err.lines().filter(|l| l.contains("error") || l.contains("-->")).take(4).collect::<Vec<_>>().join(" | ");
-                    ev.violate("unsafe-code-present", format!("the library does not compile with -F unsafe_code (auxiliary, non-runtime gate): {}", first), J::s(first.clone()));
-                } else {
-                    inconclusive.push("auxiliary forbid(unsafe_code) build failed for another reason".into());
+        let variants: [(&str, &[&str]); 2] = [("default target features", &[]), ("-C target-cpu=native", &["-C", "target-cpu=native"])];
+        for (vi, (what, extra)) in variants.iter().enumerate() {
+            let tgt = ctx.root.join("target").join(if vi == 0 { "aux".to_string() } else { format!("aux{}", vi) });
+            let mut args: Vec<&str> = vec!["rustc", "--offline", "-p", "fst", "--lib", "--features", "levenshtein", "--", "-F", "unsafe_code"];
+            args.extend_from_slice(extra);
+            let out = Command::new("cargo").current_dir("/repo").env("CARGO_TARGET_DIR", &tgt).env_remove("RUSTFLAGS").args(&args).output();
+            match out {
+                Ok(o) if o.status.success() => {
+                    if vi == 0 {
+                        ev.count("aux:library-compiles-with-forbid-unsafe_code");
+                    } else {
+                        ev.count("aux:library-compiles-with-forbid-unsafe_code(all cpu features)");
+                    }
                 }
+                Ok(o) => {
+                    let err = String::from_utf8_lossy(&o.stderr).to_string();
+                    if err.contains("unsafe") {
+                        let first = err.lines().filter(|l| l.contains("error") || l.contains("-->")).take(4).collect::<Vec<_>>().join(" | ");
+                        ev.violate("unsafe-code-present", format!("the library does not compile with -F unsafe_code ({}; auxiliary, non-runtime gate): {}", what, first), J::s(first.clone()));
+                    } else if vi == 0 {
+                        inconclusive.push("auxiliary forbid(unsafe_code) build failed for another reason".into());
+                    } else {
+                        // a tool chain that cannot build for the native CPU says nothing about the library
+                        ev.count("aux:native-cpu-build-not-available");
+                    }
+                }
+                Err(_) => inconclusive.push("cannot run cargo for the auxiliary gate".into()),
             }
-            Err(_) => inconclusive.push("cannot run cargo for the auxiliary gate".into()),
         }
     }
     // Miri shards
